@@ -35,9 +35,13 @@ using namespace llbuild::buildsystem;
 
 CommandSignature ExternalCommand::getSignature() const {
   CommandSignature code(getName());
+  // The length of each list is part of the signature: otherwise moving a node
+  // from the end of the inputs to the start of the outputs is not a change.
+  code = code.combine(unsigned(inputs.size()));
   for (const auto* input: inputs) {
     code = code.combine(input->getName());
   }
+  code = code.combine(unsigned(outputs.size()));
   for (const auto* output: outputs) {
     code = code.combine(output->getName());
   }
